@@ -177,7 +177,14 @@ Definition same_stores (a b : obs) : bool :=
   bool_decide (sort_by_key ((fun ne => (ne.1, sort_by_key ne.2)) <$> ob_eng a) =
                sort_by_key ((fun ne => (ne.1, sort_by_key ne.2)) <$> ob_eng b)).
 
-Definition is_rename (o : op) : bool := match o with Rename _ _ _ => true | _ => false end.
+Definition is_rename (o : op) : bool :=
+  match o with
+  | Rename _ _ _ => true
+  (* requests hit by an injected storage fault run in a transaction: whatever they return, the
+     stores must still agree afterwards *)
+  | FaultedRename _ _ _ _ | FaultedCreate _ _ _ => true
+  | _ => false
+  end.
 
 (* [clean]: metadata = engines was observed to hold before this operation. The clause is demanded
    again after the operation when it succeeded, and after ANY rename, accepted or rejected: a
@@ -192,6 +199,8 @@ Fixpoint ok_steps (validate : bool) (seen : list N) (clean : bool) (before : obs
       let okr := match o with
                  | Create gw req retr over =>
                      if is_ok er then ok_returned gw req retr over seen before ret else true
+                 | CreatePair gw a b =>
+                     if is_ok er then ok_returned gw (a ++ b) false false seen before ret else true
                  | _ => true
                  end in
       (* a key that shows up in a store now and was not there before the op was never seen *)
@@ -233,6 +242,8 @@ Fixpoint why_steps (validate : bool) (i : nat) (seen : list N) (clean : bool) (b
       let okr := match o with
                  | Create gw req retr over =>
                      if is_ok er then ok_returned gw req retr over seen before ret else true
+                 | CreatePair gw a b =>
+                     if is_ok er then ok_returned gw (a ++ b) false false seen before ret else true
                  | _ => true
                  end in
       let appeared := filter (fun k => negb (mem k (okeys before))) (okeys ob) in
